@@ -150,6 +150,38 @@ CHECKS = {
              'characters x all n, k in -1..10; TEXT over a grid of decimal mantissas x 160 formats.',
         note='empty and self-overlapping SUBSTITUTE needles are not generated',
         design='DESIGN.md section 5 C20'),
+    'C02': dict(
+        technique='runtime monitoring: generated parse trees rendered to Excel text (minimal / full parentheses, '
+                  'whitespace and case variants), pushed through the real ExcelFormula compiler and evaluated; oracle '
+                  '= independent evaluation of the tree with the C10 reference model, and agreement of all renderings',
+        level='exploration',
+        text='All depth <= 1 trees over 14 leaves, all one-operator-child depth 2 trees, function-call trees, all '
+             'depth 3 chains in the thorough tier, sampled depth 4-6; text literals over a hostile alphabet, number '
+             'spellings, logical and error literals; a well-formed formula that does not compile is a violation.',
+        note='leaves are chosen so every intermediate is exact; results the C10 model leaves open are only checked for '
+             'agreement between renderings',
+        design='DESIGN.md section 5 C02'),
+    'C03': dict(
+        technique='runtime monitoring: lock-step twin run of a saved model and the model read back (same process, '
+                  'fresh thread, fresh process) under recorded histories; byte hashes of repeated saves; parsed '
+                  'content of re-saves; sys.addaudithook record of files opened',
+        level='exploration',
+        text='Generated workbooks with hostile constants x yml/json/pkl x cycles on/off x load site x user extra_data; '
+             'every saved cell and every step of a post-load set_value/evaluate history is compared with the '
+             'original; second save must be byte identical; iteration settings, file name, hash, extra_data must '
+             'survive.',
+        note='only cells present in the model at save time are compared (documented limitation of the file formats)',
+        design='DESIGN.md section 5 C03'),
+    'C10': dict(
+        technique='runtime monitoring: independent reference model of Excel operator semantics and order laws over '
+                  'the exhaustive pool^2 (pool^3 for transitivity) through the real operator function and through '
+                  'real cells/literals',
+        level='exploration',
+        text='12 binary operators, unary minus and postfix % over a ~30 value pool covering every type, sign, '
+             'numeric-looking text, blank and the seven error codes (exhaustive), trichotomy / complement / '
+             'transitivity laws, hostile texts, sampled numbers and strings in the thorough tier.',
+        note='magnitudes bounded (|x| <= 1e6, exponents <= 64); a huge exact int counts as a number',
+        design='DESIGN.md section 5 C10'),
 }
 
 NOT_YET = {}
